@@ -10,6 +10,7 @@ import (
 	"go/ast"
 	"go/token"
 	"go/types"
+	"math"
 	"math/big"
 	"sort"
 	"strings"
@@ -144,6 +145,8 @@ type symCtx struct {
 	p        *Pkg
 	modFn    *types.Func
 	roundFns map[*types.Func]bool
+	roundSem map[*types.Func]*roundSem // helpers accepted by the semantic path (roundsem.go)
+	roundWhy []string                  // why a candidate helper was not accepted
 	roundSym string
 	uses     []weightUse
 	mods     []modSite
@@ -164,6 +167,8 @@ type sEnv struct {
 	// uint8 locals that hold receiver bits which are not one whole metric code
 	// (a copy of a byte, `u0 := c.u0`): kept as abstract bytes for later extraction
 	bv map[types.Object]BV
+	// local records whose fields are all metric codes (m := c.effective(); m.av …)
+	recs map[types.Object]map[string]codeSym
 }
 
 type boolVal struct {
@@ -201,6 +206,12 @@ func (e *sEnv) clone() *sEnv {
 		n.bv = map[types.Object]BV{}
 		for k, v := range e.bv {
 			n.bv[k] = v
+		}
+	}
+	if e.recs != nil {
+		n.recs = map[types.Object]map[string]codeSym{}
+		for k, v := range e.recs {
+			n.recs[k] = v // records are replaced as a whole, never updated in place
 		}
 	}
 	return n
@@ -373,6 +384,16 @@ func (e *sEnv) codeOf(x ast.Expr) (codeSym, error) {
 			continue
 		}
 		break
+	}
+	if se, ok := x.(*ast.SelectorExpr); ok {
+		if id, ok := se.X.(*ast.Ident); ok {
+			if rec, ok := e.recs[identObj(p.Info, id)]; ok {
+				if c, ok := rec[se.Sel.Name]; ok {
+					return c, nil
+				}
+				return codeSym{}, e.fail(x, "field %s of the local record holds no metric code", se.Sel.Name)
+			}
+		}
 	}
 	if id, ok := x.(*ast.Ident); ok {
 		if c, ok := e.codes[identObj(p.Info, id)]; ok {
@@ -615,8 +636,11 @@ func (e *sEnv) ex(x ast.Expr) (*Ex, error) {
 				return mkCall("min", args...), nil
 			case "Max":
 				return mkCall("max", args...), nil
-			case "Round", "Floor", "Ceil", "RoundToEven", "Trunc", "Abs":
+			case "Round", "Floor", "Ceil", "RoundToEven", "Trunc", "Abs", "Copysign":
 				return mkCall(fn.Name(), args...), nil
+			case "Modf":
+				// (integer part, fractional part), both exact and with the argument's sign
+				return &Ex{Op: "tuple", Args: []*Ex{mkCall("Trunc", args...), mkCall("Frac", args...)}}, nil
 			case "Pow":
 				if len(args) == 2 && args[1].Op == "const" && args[1].C.IsInt() && args[1].C.Sign() > 0 && args[1].C.Num().Int64() < 64 {
 					return mkPow(args[0], int(args[1].C.Num().Int64())), nil
@@ -818,6 +842,9 @@ func (e *sEnv) cond(x ast.Expr) (*Cnd, bool, error) {
 				if _, isCode := e.codes[identObj(info, id)]; isCode {
 					hasCode = true
 				}
+				if _, isRec := e.recs[identObj(info, id)]; isRec {
+					hasCode = true
+				}
 			}
 			// an integer-valued accessor of the object
 			if c, ok := n.(*ast.CallExpr); ok {
@@ -852,10 +879,18 @@ func (e *sEnv) cond(x ast.Expr) (*Cnd, bool, error) {
 		name   string
 		values []string
 		obj    types.Object // code local (nil for a raw metric read)
+		field  string       // with obj: the field of a local record of codes
 		metric string
 		eff    bool
 	}
 	var inputs []input
+	// every local (or record field) that holds a code, with the input it is bound to
+	type bind struct {
+		obj   types.Object
+		field string
+		name  string
+	}
+	var binds []bind
 	seen := map[string]bool{}
 	bad := error(nil)
 	ast.Inspect(x, func(n ast.Node) bool {
@@ -863,6 +898,24 @@ func (e *sEnv) cond(x ast.Expr) (*Cnd, bool, error) {
 			return false
 		}
 		switch y := n.(type) {
+		case *ast.SelectorExpr:
+			if id, ok := y.X.(*ast.Ident); ok {
+				if rec, ok := e.recs[identObj(info, id)]; ok {
+					c, ok := rec[y.Sel.Name]
+					if !ok {
+						bad = e.fail(y, "field %s of the local record holds no metric code", y.Sel.Name)
+						return false
+					}
+					// the same metric may be reached through a code local as well: one input per
+					// (record, field), all bound to the same enumeration variable by name
+					if !seen[c.Name()] {
+						seen[c.Name()] = true
+						inputs = append(inputs, input{name: c.Name(), values: p.atomDomain(c.Name()), obj: identObj(info, id), field: y.Sel.Name, metric: c.Metric, eff: c.Eff})
+					}
+					binds = append(binds, bind{identObj(info, id), y.Sel.Name, c.Name()})
+					return false
+				}
+			}
 		case *ast.Ident:
 			o := identObj(info, y)
 			if c, ok := e.codes[o]; ok {
@@ -870,6 +923,7 @@ func (e *sEnv) cond(x ast.Expr) (*Cnd, bool, error) {
 					seen[c.Name()] = true
 					inputs = append(inputs, input{name: c.Name(), values: p.atomDomain(c.Name()), obj: o, metric: c.Metric, eff: c.Eff})
 				}
+				binds = append(binds, bind{o, "", c.Name()})
 				return false
 			}
 			if _, isVar := o.(*types.Var); isVar {
@@ -932,10 +986,21 @@ func (e *sEnv) cond(x ast.Expr) (*Cnd, bool, error) {
 				return err
 			}
 			ce := newCEnv(p, bytes)
+			byName := map[string]int{}
 			for k, in := range inputs {
-				if in.obj != nil {
-					ce.vars[in.obj] = vInt(int64(cur[k]))
+				byName[in.name] = cur[k]
+			}
+			for _, b := range binds {
+				if b.field == "" {
+					ce.vars[b.obj] = vInt(int64(byName[b.name]))
+					continue
 				}
+				rv, ok := ce.vars[b.obj]
+				if !ok {
+					rv = Val{K: VStruct, F: map[string]Val{}}
+				}
+				rv.F[b.field] = vInt(int64(byName[b.name]))
+				ce.vars[b.obj] = rv
 			}
 			v, err := ce.eval(x)
 			if err != nil {
@@ -1085,6 +1150,17 @@ func (e *sEnv) assign(lhs ast.Expr, rhs ast.Expr) error {
 	if o == nil {
 		return e.fail(lhs, "unresolved identifier")
 	}
+	if codeRecord(o.Type()) != nil {
+		rec, err := e.recordOf(rhs)
+		if err != nil {
+			return err
+		}
+		if e.recs == nil {
+			e.recs = map[types.Object]map[string]codeSym{}
+		}
+		e.recs[o] = rec
+		return nil
+	}
 	if isUint8(o.Type()) {
 		c, err := e.codeOf(rhs)
 		if err != nil {
@@ -1124,6 +1200,199 @@ func (e *sEnv) assign(lhs ast.Expr, rhs ast.Expr) error {
 	}
 	e.vars[o] = v
 	return nil
+}
+
+// codeRecord returns the struct type when t is a struct whose fields are all
+// uint8 (a record of metric codes), else nil.
+func codeRecord(t types.Type) *types.Struct {
+	st, ok := t.Underlying().(*types.Struct)
+	if !ok || st.NumFields() == 0 || st.NumFields() > 32 {
+		return nil
+	}
+	for i := 0; i < st.NumFields(); i++ {
+		if !isUint8(st.Field(i).Type()) {
+			return nil
+		}
+	}
+	return st
+}
+
+// runAccessor evaluates the straight-line body of a package function or method
+// of the object up to its final return statement: assignments of metric codes
+// to locals or named results only. It returns the callee environment and that
+// return statement.
+func (e *sEnv) runAccessor(call *ast.CallExpr, fn *types.Func) (*sEnv, *ast.FuncDecl, *ast.ReturnStmt, error) {
+	p := e.c.p
+	sig := fn.Type().(*types.Signature)
+	fd := p.FuncObj[fn]
+	if fd == nil || fd.Body == nil {
+		return nil, nil, nil, e.fail(call, "no body for %s", fn.Name())
+	}
+	if e.depth > 6 {
+		return nil, nil, nil, e.fail(call, "inlining depth exceeded")
+	}
+	if sig.Recv() != nil {
+		se, ok := call.Fun.(*ast.SelectorExpr)
+		if !ok {
+			return nil, nil, nil, e.fail(call, "method value")
+		}
+		if tv, ok := p.Info.Types[se.X]; !ok || !p.isTPtrOrVal(tv.Type) {
+			return nil, nil, nil, e.fail(call, "method call on something other than the vector object")
+		}
+	}
+	params := paramObjs(p.Info, fd)
+	if len(params) != len(call.Args) {
+		return nil, nil, nil, e.fail(call, "arity")
+	}
+	callee := &sEnv{c: e.c, vars: map[types.Object]*Ex{}, codes: map[types.Object]codeSym{}, depth: e.depth + 1}
+	for i, po := range params {
+		if !isUint8(po.Type()) {
+			return nil, nil, nil, e.fail(call, "accessor parameter %s is not a metric code", po.Name())
+		}
+		c, err := e.codeOf(call.Args[i])
+		if err != nil {
+			return nil, nil, nil, err
+		}
+		callee.codes[po] = c
+	}
+	for i, s := range fd.Body.List {
+		switch st := s.(type) {
+		case *ast.AssignStmt:
+			if (st.Tok != token.ASSIGN && st.Tok != token.DEFINE) || len(st.Lhs) != len(st.Rhs) {
+				return nil, nil, nil, e.fail(s, "accessor statement outside the formula language")
+			}
+			for k := range st.Lhs {
+				if err := callee.assign(st.Lhs[k], st.Rhs[k]); err != nil {
+					return nil, nil, nil, err
+				}
+			}
+		case *ast.ReturnStmt:
+			if i != len(fd.Body.List)-1 {
+				return nil, nil, nil, e.fail(s, "accessor returns before its last statement")
+			}
+			return callee, fd, st, nil
+		default:
+			return nil, nil, nil, e.fail(s, "accessor statement %T outside the formula language", s)
+		}
+	}
+	return nil, nil, nil, e.fail(call, "%s does not end with a return", fn.Name())
+}
+
+// codesOfCall evaluates a call to a package function or method of the object
+// whose results are all uint8 and whose body is straight-line — the accessor
+// `func (c *T) baseCIA() (c, i, a uint8)`. handled is false when x is not such
+// a call.
+func (e *sEnv) codesOfCall(x ast.Expr, n int) ([]codeSym, bool, error) {
+	p := e.c.p
+	call, ok := ast.Unparen(x).(*ast.CallExpr)
+	if !ok {
+		return nil, false, nil
+	}
+	fn := calleeOf(p.Info, call)
+	if fn == nil || fn.Pkg() != p.P.Types {
+		return nil, false, nil
+	}
+	sig := fn.Type().(*types.Signature)
+	if sig.Results().Len() != n || n < 2 {
+		return nil, false, nil
+	}
+	for i := 0; i < n; i++ {
+		if !isUint8(sig.Results().At(i).Type()) {
+			return nil, false, nil
+		}
+	}
+	callee, fd, ret, err := e.runAccessor(call, fn)
+	if err != nil {
+		return nil, true, err
+	}
+	var out []codeSym
+	if len(ret.Results) == 0 {
+		for _, ro := range resultObjs(p.Info, fd) {
+			c, ok := callee.codes[ro]
+			if ro == nil || !ok {
+				return nil, true, e.fail(ret, "a named result of %s is returned without a metric code", fn.Name())
+			}
+			out = append(out, c)
+		}
+		return out, true, nil
+	}
+	if len(ret.Results) != n {
+		return nil, true, e.fail(ret, "return arity")
+	}
+	for _, r := range ret.Results {
+		c, err := callee.codeOf(r)
+		if err != nil {
+			return nil, true, err
+		}
+		out = append(out, c)
+	}
+	return out, true, nil
+}
+
+// recordOf evaluates an expression of a record-of-codes type: a composite
+// literal, another local record, or a call to a straight-line accessor that
+// returns one.
+func (e *sEnv) recordOf(x ast.Expr) (map[string]codeSym, error) {
+	p := e.c.p
+	x = ast.Unparen(x)
+	switch n := x.(type) {
+	case *ast.Ident:
+		if rec, ok := e.recs[identObj(p.Info, n)]; ok {
+			return rec, nil
+		}
+	case *ast.CompositeLit:
+		tv, ok := p.Info.Types[n]
+		if !ok {
+			break
+		}
+		st := codeRecord(tv.Type)
+		if st == nil {
+			break
+		}
+		rec := map[string]codeSym{}
+		for i, el := range n.Elts {
+			name, val := "", el
+			if kv, ok := el.(*ast.KeyValueExpr); ok {
+				id, ok := kv.Key.(*ast.Ident)
+				if !ok {
+					return nil, e.fail(el, "record literal key")
+				}
+				name, val = id.Name, kv.Value
+			} else {
+				name = st.Field(i).Name()
+			}
+			c, err := e.codeOf(val)
+			if err != nil {
+				return nil, err
+			}
+			rec[name] = c
+		}
+		// a field left out holds 0, which is not a metric's code: reading it fails in codeOf
+		return rec, nil
+	case *ast.CallExpr:
+		fn := calleeOf(p.Info, n)
+		if fn == nil || fn.Pkg() != p.P.Types {
+			break
+		}
+		callee, fd, ret, err := e.runAccessor(n, fn)
+		if err != nil {
+			return nil, err
+		}
+		if len(ret.Results) == 0 {
+			ros := resultObjs(p.Info, fd)
+			if len(ros) == 1 && ros[0] != nil {
+				if rec, ok := callee.recs[ros[0]]; ok {
+					return rec, nil
+				}
+			}
+			return nil, e.fail(ret, "the named result of %s is returned without a value", fn.Name())
+		}
+		if len(ret.Results) != 1 {
+			return nil, e.fail(ret, "return arity")
+		}
+		return callee.recordOf(ret.Results[0])
+	}
+	return nil, e.fail(x, "expression does not produce a record of metric codes")
 }
 
 // block evaluates a statement list; it returns the returned expression when
@@ -1177,6 +1446,28 @@ func (e *sEnv) block(stmts []ast.Stmt) (*Ex, bool, error) {
 				continue
 			}
 			if len(st.Lhs) > 1 && len(st.Rhs) == 1 {
+				// c, i, a := obj.codes()  with a straight-line accessor returning metric codes
+				if cs, handled, err := e.codesOfCall(st.Rhs[0], len(st.Lhs)); handled {
+					if err != nil {
+						return nil, false, err
+					}
+					for k, l := range st.Lhs {
+						id, ok := l.(*ast.Ident)
+						if !ok {
+							return nil, false, e.fail(s, "tuple assignment target")
+						}
+						if id.Name == "_" {
+							continue
+						}
+						o := identObj(p.Info, id)
+						if o == nil || !isUint8(o.Type()) {
+							return nil, false, e.fail(s, "tuple assignment of a metric code to a non-uint8 variable")
+						}
+						e.codes[o] = cs[k]
+						delete(e.bv, o)
+					}
+					continue
+				}
 				// a, b, c := f()  with f returning several float values
 				v, err := e.ex(st.Rhs[0])
 				if err != nil {
@@ -1360,6 +1651,25 @@ func (e *sEnv) block(stmts []ast.Stmt) (*Ex, bool, error) {
 					}
 				}
 				e.arrs[k] = merged
+			}
+			for k, a := range te.recs {
+				b, ok := ee.recs[k]
+				same := ok && len(a) == len(b)
+				for f, c := range a {
+					if same && b[f] != c {
+						same = false
+					}
+				}
+				if scoped[k] {
+					continue
+				}
+				if !same {
+					return nil, false, e.fail(s, "local record %s differs between branches", k.Name())
+				}
+				if e.recs == nil {
+					e.recs = map[types.Object]map[string]codeSym{}
+				}
+				e.recs[k] = a
 			}
 			for k, a := range te.codes {
 				if b, ok := ee.codes[k]; !ok || a != b {
@@ -1620,6 +1930,18 @@ func (p *Pkg) newSymCtx(oracleRound *Ex, roundSym string) *symCtx {
 			t, err := (&symCtx{p: p, roundFns: map[*types.Func]bool{}}).treeOf(fd)
 			if err == nil && t.String() == oracleRound.String() {
 				c.roundFns[fn] = true
+			} else if err == nil && roundSym == "ru" && containsRounding(t) {
+				// written differently: decided on the integer it works on (roundsem.go)
+				n, form, serr := semanticRound(t, oracleRound)
+				if serr == nil {
+					c.roundFns[fn] = true
+					if c.roundSem == nil {
+						c.roundSem = map[*types.Func]*roundSem{}
+					}
+					c.roundSem[fn] = &roundSem{fd: fd, name: fn.Name(), evals: n, form: form}
+				} else {
+					c.roundWhy = append(c.roundWhy, fn.Name()+": "+serr.Error())
+				}
 			}
 		}
 	}
@@ -1656,9 +1978,17 @@ func (w *World) rulesFormula(out *[]Obligation) {
 		ctx := p.newSymCtx(oracle["round"], roundSym)
 		// R0x.round
 		if len(ctx.roundFns) == 0 {
-			add(false, fam+".round", "round", nil, "no func(float64) float64 whose body is the specification's rounding algorithm: "+oracle["round"].String())
+			why := ""
+			if len(ctx.roundWhy) > 0 {
+				sort.Strings(ctx.roundWhy)
+				why = "; " + strings.Join(ctx.roundWhy, "; ")
+			}
+			add(false, fam+".round", "round", nil, "no func(float64) float64 whose body is the specification's rounding algorithm: "+oracle["round"].String()+why)
 		} else {
 			for fn := range ctx.roundFns {
+				if ctx.roundSem[fn] != nil {
+					continue // reported once the call sites are known, below
+				}
 				add(true, fam+".round", "round["+fn.Name()+"]", p.FuncObj[fn], "body is exactly "+oracle["round"].String())
 			}
 		}
@@ -1818,6 +2148,36 @@ func (w *World) rulesFormula(out *[]Obligation) {
 				} else {
 					add(false, "R10.base", sm.Method, fd, "the score depends on "+strings.Join(badSyms, ", ")+", outside the metric group(s) this score may read")
 				}
+			}
+		}
+		// R03.round, semantic path: the helper agrees with the specification's algorithm on
+		// the integers of [0, tMax]; every call site must stay inside that domain
+		for fn, rs := range ctx.roundSem {
+			weights := p.codeWeights(ctx)
+			u := ival{math.Inf(1), math.Inf(-1)}
+			nSites := 0
+			var serr error
+			for _, mname := range []string{"BaseScore", "TemporalScore", "EnvironmentalScore"} {
+				t := trees[k][mname]
+				if t == nil {
+					serr = fmt.Errorf("no formula tree for %s", mname)
+					break
+				}
+				iv, n, err := roundSites(normIte(t), weights, roundSym, oracle["round"])
+				if err != nil {
+					serr = fmt.Errorf("%s: %v", mname, err)
+					break
+				}
+				nSites += n
+				u.lo, u.hi = math.Min(u.lo, iv.lo), math.Max(u.hi, iv.hi)
+			}
+			switch {
+			case serr != nil:
+				add(false, fam+".round", "round["+fn.Name()+"]", rs.fd, "the helper is not the specification's algorithm verbatim and the range of its arguments cannot be bounded (undecided): "+serr.Error())
+			case nSites == 0 || u.lo < 0 || u.hi*100000 > roundSemTMax-1:
+				add(false, fam+".round", "round["+fn.Name()+"]", rs.fd, fmt.Sprintf("the helper is not the specification's algorithm verbatim; it agrees with it for arguments in [0, %g] only, and the %d call sites are bounded by [%g, %g] (undecided)", float64(roundSemTMax)/100000, nSites, u.lo, u.hi))
+			default:
+				add(true, fam+".round", "round["+fn.Name()+"]", rs.fd, fmt.Sprintf("reads its argument only through the integer t = RoundToEven(100000·x); as a function of t (%s) it returns bit for bit what the specification's algorithm returns for all %d integers t in [0, %d]; the %d call sites in the score formulas pass arguments within [%.6g, %.6g] (interval analysis over the package's weight tables, path comparisons included)", clip(rs.form), rs.evals, roundSemTMax, nSites, u.lo, u.hi))
 			}
 		}
 		w.rulesWeights(p, ctx, fam, out)
